@@ -48,9 +48,17 @@ def robustness_inputs(ctx, n):
         progs.append(g.program())
     for p in progs:
         out.append(("valid", p.encode()))
+    from gen.snippets import corpus
+    from gen.declforms import corpus as declforms
+    snippets = [t for _, t in corpus() if 'R"' not in t] + [l for _, l in declforms()[::7]]
     while len(out) < n:
         p = rng.choice(progs)
-        k = rng.randrange(9)
+        k = rng.randrange(11)
+        if k >= 9:
+            # the syntactic corpus (every node kind, adjacency and attribute forms, declaration forms): as written and token-mutated
+            t = rng.choice(snippets)
+            out.append(("corpus-mutated", mutate_tokens(rng, t, rng.randrange(0, 4)).encode()))
+            continue
         if k == 0:
             out.append(("truncated", p.encode()[:rng.randrange(len(p) + 1)]))
         elif k in (1, 2):
@@ -255,7 +263,7 @@ def run(ctx):
     ctx.cov.update({
         "evaluations": len(pc) + total, "distinct_nontrivial": len({(t, tuple(o)) for t, o in pc}) + total,
         "traces_validated_against_impl": len(pc), "exhaustive": False,
-        "rule": "protocol: all sequences of 1..3 cursor operations over 9 operations on 12 token strings + seeded random sequences on ~70 more (real Parser vs Lean model, %d traces); robustness: %s inputs (an eighth with directive / expansion-marker lines inserted, a third of them with an ambiguous statement planted after a random brace so that the disambiguation pass walks the tree; valid, truncated at random offsets, token-mutated, byte-mutated, unterminated literal/comment/directive tails, invalid UTF-8 incl. truncated sequences at the end, nesting within the declared limits, token soup; plus EVERY token-boundary prefix of a few programs with K&R definitions and all extensions switched on, under ASan) x random ParseOptions (dialect, 31 switches, comment mode, disambiguation mode, keyword recognition) x syntax category x builds %s (the ASan builds with -D_GLIBCXX_ASSERTIONS: container accesses checked against size(), not capacity), each parsed, fully traversed and asked first/last token of every node; non-trivial = every robustness input counts (distinct random data)"
+        "rule": "protocol: all sequences of 1..3 cursor operations over 9 operations on 12 token strings + seeded random sequences on ~70 more (real Parser vs Lean model, %d traces); robustness: %s inputs (an eighth with directive / expansion-marker lines inserted, a third of them with an ambiguous statement planted after a random brace so that the disambiguation pass walks the tree; valid, truncated at random offsets, token-mutated, byte-mutated, unterminated literal/comment/directive tails, invalid UTF-8 incl. truncated sequences at the end, nesting within the declared limits, token soup, the syntactic corpus of C03/C14/C04 as written and token-mutated; plus EVERY token-boundary prefix of a few programs with K&R definitions and all extensions switched on, under ASan) x random ParseOptions (dialect, 31 switches, comment mode, disambiguation mode, keyword recognition) x syntax category x builds %s (the ASan builds with -D_GLIBCXX_ASSERTIONS: container accesses checked against size(), not capacity), each parsed, fully traversed and asked first/last token of every node; non-trivial = every robustness input counts (distinct random data)"
                 % (len(pc), total, [f for f, _ in plan]),
         "samples": [plines[5], str(metas[0][3][:120]), str(metas[-1][3][:120])],
     })
